@@ -9,6 +9,7 @@ Line protocol (bytes: lower-case hex, `-` = empty; text: decimal code points joi
 * `encode <cps>`               → `ok <hex>` | `err UnicodeEncodeError`
 * `readtext <hex>`             → `ok <cps>` | `err UnicodeDecodeError`    (text-mode read of a file)
 * `deliver file|stdout <linesep cps> <text cps>` → `ok <hex>` | `err UnicodeEncodeError`
+* `deliveronto <absent|hex of the previous file> <linesep cps> <text cps>` → `ok <hex>` | `err UnicodeEncodeError`
 * `cli <file|stdout> <name cps> <cdef hex> <csrc hex>` with the identity-on-prelude generator
                                → `ok <hex>` | `err <kind>`   (the read-sources pipeline end to end)
 -/
@@ -55,6 +56,13 @@ def step (_ : Unit) : List String → Unit × String
   | ["deliver", o, ls, s] =>
     match out? o, cps? ls, cps? s with
     | some o, some ls, some t => ((), match deliver ls o t with
+        | .ok bs => "ok " ++ bytesOut bs
+        | .error e => errOut e)
+    | _, _, _ => ((), "bad-op")
+  | ["deliveronto", prev, ls, s] =>
+    let prev? : Option (Option (List Nat)) := if prev == "absent" then some none else (bytes? prev).map some
+    match prev?, cps? ls, cps? s with
+    | some prev, some ls, some t => ((), match writeFileOnto ls prev t with
         | .ok bs => "ok " ++ bytesOut bs
         | .error e => errOut e)
     | _, _, _ => ((), "bad-op")
